@@ -197,6 +197,59 @@ def run_profiles(names, tier, parallel=4):
     return out
 
 
+def repo_suite_traces(prop, tier, rep):
+    """run (part of) the repository's own tests under the out-of-tree recorder and let TLC validate every
+    recorded public call (the CCF lesson: existing tests trigger what their assertions miss)"""
+    import random
+    import subprocess
+    import sys
+    import tempfile
+    import shutil
+    from . import drive
+    d = tempfile.mkdtemp(prefix="smg-suite-")
+    repo = os.environ.get("VERIF_REPO", "/repo")
+    tests = (["tests/unit/test_graph.py", "tests/unit/test_json_handler.py", "tests/unit/algorithms"] if tier == "quick"
+             else ["tests/unit", "tests/hypothesis"])
+    try:
+        path = os.path.join(d, "rec.ndjson")
+        env = dict(os.environ, VERIF_RECORD_FILE=path,
+                   PYTHONPATH=str(common.VERIF) + os.pathsep + os.environ.get("PYTHONPATH", ""))
+        p = subprocess.run([sys.executable, "-m", "pytest", "-q", "-x", "-p", "harness.recorder_plugin", "-p", "no:cacheprovider",
+                            "--timeout=900", *tests], cwd=repo, env=env, capture_output=True, text=True, timeout=1800)
+        tail = (p.stdout or "").strip().splitlines()[-1:] or [""]
+        recs = [json.loads(l) for l in open(path)] if os.path.exists(path) else []
+    finally:
+        shutil.rmtree(d, ignore_errors=True)
+    for k, r in enumerate(recs):
+        r["id"] = k + 1
+    out = {"pytest": tail[0][:120], "pytest_rc": p.returncode, "recorded": len(recs), "validated": 0, "accepted": 0}
+    if p.returncode != 0:
+        rep.note("the repository's tests did not pass under the recorder (" + tail[0][:100] + "); traces of the passing part are still validated")
+    if not recs:
+        return out
+    rnd = random.Random(common.seed() + 3)
+    if tier == "quick" and len(recs) > 3000:
+        recs = rnd.sample(recs, 3000)
+        for k, r in enumerate(recs):
+            r["id"] = k + 1
+    ok, bad, _ = drive.validate(recs)
+    byid = {r["id"]: r for r in recs}
+    for i, b in bad.items():
+        r = byid[i]
+        if not b["driven"]:
+            continue
+        props, sig, what = classify_record(r, b)
+        if prop in props:
+            rep.violation(f"{prop}|suite-trace|{sig}", what + f" [recorded in {r.get('test', '?')[:80]}]", {"record": r, "verdict": b})
+    for r in recs:
+        if r.get("incoherent"):
+            props, sig, what = classify_record(r, None)
+            if prop in props:
+                rep.violation(f"{prop}|suite-trace|{sig}", what, {"record": r})
+    out.update(validated=len(recs), accepted=len(ok))
+    return out
+
+
 REJECTS = {"add_bond_badrole", "set_bond_badrole"}
 QUERY_NAMES = None
 
@@ -322,7 +375,13 @@ def collect(prop: str, tier: str, rep: Reporter, with_traces=True) -> dict:
             props, sig, what = classify_record(r, None)
             if prop in props:
                 rep.violation(f"{prop}|trace|{sig}", what, {"record": r})
-    cov_trace = {"records": n_rec, "accepted": n_ok, "not_driven": n_undriven, "by_operation": trace_ops,
+    # ---------------- stage 3: the repository's own test-suite, recorded and validated ----------------
+    suite = {"records": 0}
+    if with_traces and (tier == "thorough" or prop in ("C09", "C19")):
+        suite = repo_suite_traces(prop, tier, rep)
+        n_rec += suite["validated"]
+        n_ok += suite["accepted"]
+    cov_trace = {"repository_test_suite": suite, "records": n_rec, "accepted": n_ok, "not_driven": n_undriven, "by_operation": trace_ops,
                  "wall_s": round(time.time() - t_tr, 1), "samples": tr_samples}
     cov = {
         "trace_validation": cov_trace,
